@@ -805,6 +805,10 @@ def packet_id_wrap_family(report, prop="C06", label="packet-id-wrap"):
                 else:
                     reqs[acks[i]] = f"eng.data t=1 b=x4002{pid:04x}"
             reqs.append("eng.snap")
+            # ... and then the held ones are acknowledged too: nothing may stay reserved
+            for pid in sorted(in_flight):
+                reqs.append(f"eng.data t=2 b=x4002{pid:04x}")
+            reqs.append("eng.snap")
             impl = harness_batch(reqs)
             model = driver_batch(reqs)
             report.case(f"wrap v={v} held={held}")
@@ -840,9 +844,16 @@ def packet_id_wrap_family(report, prop="C06", label="packet-id-wrap"):
             if bad:
                 mon = False
                 report.add_finding(Finding(prop, "mon:" + label, {"clause": "id-zero-or-in-use", "version": v}, bad, reqs[:10] + ["# ... (65540 publish / service / write completion / PUBACK rounds)"]))
+            final, _ = resp_fields(impl[-1])
+            if final.get("alloc", "") != "" or final.get("ppub", "") != "" or final.get("ops", "") != "":
+                mon = False
+                report.add_finding(Finding(prop, "mon:" + label, {"clause": "identifier-leaked", "version": v},
+                                           f"every publish has been acknowledged, yet the engine still holds ops={final.get('ops')} reserved identifiers alloc={final.get('alloc')} pending={final.get('ppub')} "
+                                           f"({held} identifiers were held across the wrap of the allocation cursor and acknowledged last)",
+                                           reqs[:10] + [f"# ... (65540 publish / service / write completion / PUBACK rounds, the first {held} publishes unacknowledged until the end)"] + reqs[-(held + 2):] + ["# impl: " + impl[-1][:300]]))
             report.count(label + ".publishes", len(ids))
     report.obligation("corr:" + label, "correspondence", ok, "4 connections x 65540 publishes (the cursor wraps), every response compared")
-    report.obligation("mon:" + label, "monitor", mon, "every identifier non-zero and not held by an unacknowledged publish, across the wrap")
+    report.obligation("mon:" + label, "monitor", mon, "every identifier non-zero and not held by an unacknowledged publish, across the wrap; nothing reserved once everything is acknowledged")
     return ok and mon
 
 
@@ -1347,4 +1358,131 @@ def inbound_qos2_sessions_family(report, prop="C05", label="inbound-qos2-across-
     report.count(label + ".judged", judged)
     report.obligation("corr:" + label, "correspondence", ok, f"{len(scripts)} scripted histories, every response compared")
     report.obligation("mon:" + label, "monitor", mon and judged > 0, f"{judged} inbound QoS 2 publishes judged against the set of unreleased identifiers (forgotten exactly when a CONNACK reports no session)")
+    return ok and mon
+
+
+def ping_queued_at_close_family(report, prop="C14", label="ping-queued-at-close"):
+    """the connection ends while a PINGREQ is queued and not yet written (it fell due while the socket still held the previous
+    write, or while there was no room in the buffer): the next connection keeps its own keep-alive clock - a PINGREQ goes out
+    within K of its CONNACK, and again K after that."""
+    from gv import harness_batch, resp_fields, unhex
+    from walk import split_packets
+    scripts = []
+    for v in ("5", "311"):
+        connack = "x20020000" if v == "311" else "x2003000000"
+        for K in (1, 2, 60):
+            for block in ("pending-write", "no-room", "none"):
+                k = K * 1000
+                sc = [f"eng.new v={v} policy=all drain=none pingto=100000 resolver=none rmax=2 | ka={K} cid=x63 rejoin=always",
+                      "eng.open t=0 deadline=30000", "eng.svc t=0 cap=4096 prefill=0", "eng.wc t=0", f"eng.data t=0 b={connack}"]
+                if block == "pending-write":
+                    sc += ["eng.pub t=10 | publish pid=0 topic=x742f30 qos=1 retain=0 payload=x00", "eng.svc t=10 cap=4096 prefill=0",     # written, not flushed
+                           f"eng.svc t={k + 20} cap=4096 prefill=12"]                                                                    # the ping falls due: queued, cannot be written
+                elif block == "no-room":
+                    sc += [f"eng.svc t={k + 20} cap=6 prefill=5"]
+                else:
+                    sc += [f"eng.svc t={k + 20} cap=4096 prefill=0", f"eng.wc t={k + 20}"]
+                t0 = k + 50
+                sc += [f"eng.close t={t0}", f"eng.open t={t0} deadline={t0 + 30000}", f"eng.svc t={t0} cap=4096 prefill=0", f"eng.wc t={t0}", f"eng.data t={t0} b={connack}"]
+                for j in (1, 2):
+                    sc += [f"eng.svc t={t0 + j * k + 5} cap=4096 prefill=0", f"eng.wc t={t0 + j * k + 5}", f"eng.data t={t0 + j * k + 6} b=xd000"]
+                scripts.append((sc, K, block, len(sc) - 6))
+    reqs, starts = [], []
+    for sc, *_ in scripts:
+        starts.append(len(reqs))
+        reqs.append("session.reset")
+        reqs += sc
+    impl = harness_batch(reqs)
+    model = driver_batch(reqs)
+    ok, mon, bad, mbad = True, True, 0, 0
+    for k_, st in enumerate(starts):
+        end = starts[k_ + 1] if k_ + 1 < len(starts) else len(reqs)
+        sc, K, block, first = scripts[k_]
+        report.case("|".join(reqs[st + 1:end]))
+        report.traces_validated += 1
+        report.count(label + "." + block)
+        for i in range(st, end):
+            if canon(impl[i]) != canon(model[i]):
+                ok = False
+                if bad < 4:
+                    report.add_finding(Finding(prop, "corr:" + label, {"clause": "model-vs-impl", "verb": reqs[i].split(" ")[0]},
+                                               "ping-queued-at-close scenario: implementation and model disagree", reqs[st + 1:i + 1] + ["# impl:  " + impl[i][:300], "# model: " + model[i][:300]], has_input=False))
+                bad += 1
+                break
+        # the two service calls K and 2K after the second CONNACK each write a PINGREQ
+        for j, i in enumerate((st + 1 + first, st + 1 + first + 3)):
+            f, _ = resp_fields(impl[i])
+            pkts = split_packets(unhex(f.get("bytes", "x")))[0] if f.get("bytes", "x") != "x" else []
+            if f.get("res") != "ok" or not any(fb >> 4 == 12 for fb, _ in pkts):
+                mon = False
+                if mbad < 6:
+                    report.add_finding(Finding(prop, "mon:" + label, {"clause": "no-ping-within-keep-alive", "block": block},
+                                               f"keep alive {K} s: {j + 1} x K after the CONNACK of the second connection nothing had been sent and the service call writes no PINGREQ "
+                                               f"(the first connection ended with a PINGREQ queued: {block})", reqs[st + 1:i + 1] + ["# impl: " + impl[i][:200]]))
+                mbad += 1
+                break
+    report.count(label + ".scenarios", len(scripts))
+    report.obligation("corr:" + label, "correspondence", ok, f"{len(scripts)} scripted histories, every response compared")
+    report.obligation("mon:" + label, "monitor", mon, "a connection that follows one which ended with a PINGREQ queued still pings every K")
+    return ok and mon
+
+
+def failing_ack_family(report, prop="C01", label="failing-acknowledgement"):
+    """an acknowledgement that carries a failing reason code - every code of 0x80 and above that the packet type allows, the
+    boundary 0x80 included - resolves its operation there and then (QoS 1: the PUBACK; QoS 2: the failing PUBREC, after which
+    no PUBREL is sent; SUBACK / UNSUBACK: the codes are the result), and releases what the operation held."""
+    from gv import harness_batch, resp_fields, unhex
+    from walk import split_packets
+    scripts = []
+    cases = [("pub1", "eng.pub t=1 | publish pid=0 topic=x742f30 qos=1 retain=0 payload=x00", lambda rc: f"x40030001{rc:02x}", (0x80, 0x83, 0x87, 0x90, 0x91, 0x97, 0x99)),
+             ("pub2", "eng.pub t=1 | publish pid=0 topic=x742f30 qos=2 retain=0 payload=x00", lambda rc: f"x50030001{rc:02x}", (0x80, 0x83, 0x87, 0x90, 0x91, 0x97, 0x99)),
+             ("sub", "eng.sub t=1 | subscribe pid=0 sub=x662f30:1:0:0:0", lambda rc: f"x9004000100{rc:02x}", (0x80, 0x83, 0x87, 0x8f, 0x91, 0x97, 0x9e, 0xa1, 0xa2)),
+             ("unsub", "eng.unsub t=1 | unsubscribe pid=0 tf=x662f30", lambda rc: f"xb004000100{rc:02x}", (0x11, 0x80, 0x83, 0x87, 0x8f, 0x91))]
+    for kind, op, ack, codes in cases:
+        for rc in codes:
+            sc = ["eng.new v=5 policy=all drain=none pingto=0 resolver=none rmax=2 | ka=0 cid=x63", "eng.open t=0 deadline=30000", "eng.svc t=0 cap=4096 prefill=0", "eng.wc t=0",
+                  "eng.data t=0 b=x2003000000", op, "eng.svc t=1 cap=4096 prefill=0", "eng.wc t=1", f"eng.data t=2 b={ack(rc)}", "eng.svc t=2 cap=4096 prefill=0", "eng.snap"]
+            scripts.append((sc, kind, rc))
+    reqs, starts = [], []
+    for sc, *_ in scripts:
+        starts.append(len(reqs))
+        reqs.append("session.reset")
+        reqs += sc
+    impl = harness_batch(reqs)
+    model = driver_batch(reqs)
+    ok, mon, bad, mbad = True, True, 0, 0
+    for k, st in enumerate(starts):
+        end = starts[k + 1] if k + 1 < len(starts) else len(reqs)
+        sc, kind, rc = scripts[k]
+        report.case("|".join(reqs[st + 1:end]))
+        report.traces_validated += 1
+        for i in range(st, end):
+            if canon(impl[i]) != canon(model[i]):
+                ok = False
+                if bad < 4:
+                    report.add_finding(Finding(prop, "corr:" + label, {"clause": "model-vs-impl", "verb": reqs[i].split(" ")[0]},
+                                               "failing-acknowledgement scenario: implementation and model disagree", reqs[st + 1:i + 1] + ["# impl:  " + impl[i][:300], "# model: " + model[i][:300]], has_input=False))
+                bad += 1
+                break
+        ackr, _ = resp_fields(impl[st + 9])
+        svc, _ = resp_fields(impl[st + 10])
+        snap, _ = resp_fields(impl[st + 11])
+        problem = None
+        if ackr.get("res") != "ok":
+            problem = f"the acknowledgement was refused ({ackr.get('res')})"
+        elif not ackr.get("comps"):
+            problem = "the operation was not resolved by it"
+        elif svc.get("bytes", "x") != "x" and any(fb >> 4 == 6 for fb, _ in split_packets(unhex(svc["bytes"]))[0]):
+            problem = "a PUBREL was sent for a delivery the server refused"
+        elif snap.get("ops", "") != "" or snap.get("alloc", "") != "":
+            problem = f"the operation is still tracked or its identifier still reserved (ops={snap.get('ops')} alloc={snap.get('alloc')})"
+        if problem:
+            mon = False
+            if mbad < 6:
+                report.add_finding(Finding(prop, "mon:" + label, {"clause": "failing-ack-does-not-resolve", "kind": kind},
+                                           f"{kind}: acknowledgement with reason code 0x{rc:02x}: {problem}", reqs[st + 1:end] + ["# impl: " + impl[st + 9][:200]]))
+            mbad += 1
+    report.count(label + ".scenarios", len(scripts))
+    report.obligation("corr:" + label, "correspondence", ok, f"{len(scripts)} scripted histories, every response compared")
+    report.obligation("mon:" + label, "monitor", mon, "an acknowledgement with a failing reason code resolves its operation at once and releases what it held")
     return ok and mon
